@@ -44,16 +44,20 @@ class Ctx:
         self.assumptions = []
         self.explanations = []
         self.na_counts = {}
+        self.override = None     # thorough tier: analyse another build configuration with the same rules
+        self.suffix = ""
 
     # -- facts -----------------------------------------------------------------------
     def facts(self, config="default"):
+        if config == "default" and self.override:
+            config = self.override
         f = factsmod.load(config, verbose=bool(os.environ.get("RR_VERBOSE")))
         self.configs[config] = {"bodies": len(f.bodies), "adts": len(f.adts), "file": os.path.basename(f.path)}
         return f
 
     # -- bookkeeping -------------------------------------------------------------------
     def ok(self, rule, key, where="", detail=""):
-        self.instances.append(dict(rule=rule, key=key, ok=True, where=where, detail=detail))
+        self.instances.append(dict(rule=rule, key=key + self.suffix, ok=True, where=where, detail=detail))
         self.rule_counts[rule] = self.rule_counts.get(rule, 0) + 1
 
     def silent(self, rule, key, where="", why=""):
@@ -61,12 +65,14 @@ class Ctx:
         self.na_counts[rule] = self.na_counts.get(rule, 0) + 1
 
     def bad(self, rule, key, where, msg, detail=None):
-        self.instances.append(dict(rule=rule, key=key, ok=False, where=where, detail=msg))
+        self.instances.append(dict(rule=rule, key=key + self.suffix, ok=False, where=where, detail=msg))
         self.rule_counts[rule] = self.rule_counts.get(rule, 0) + 1
         self.violations.append(dict(rule=rule, key="%s:%s" % (rule, key), where=where, msg=msg, detail=detail or {}))
 
     def floor(self, rule, minimum, what=""):
         """Fail closed: the rule must have evaluated at least `minimum` instances."""
+        if self.override:
+            return  # floors are counted on the default configuration
         n = self.rule_counts.get(rule, 0)
         self.floors[rule] = dict(floor=minimum, counted=n, what=what)
         if n < minimum:
@@ -84,6 +90,8 @@ class Ctx:
 
     def control(self, rule, fired, what=""):
         """Positive control (E5): the rule must fire on its deliberately wrong twin."""
+        if self.override:
+            return
         self.controls[rule] = dict(fired=bool(fired), what=what)
         if not fired:
             self.violations.append(dict(rule=rule, key="%s:control" % rule, where="",
@@ -175,10 +183,24 @@ def finish(ctx, level="other"):
     return 1 if new else 0
 
 
+THOROUGH_CONFIGS = ["simd", "avx", "fftw", "fastmath", "rtlsdr"]
+
+
 def run_property(prop, tier, fn):
     ctx = Ctx(prop, tier)
     try:
         fn(ctx)
+        if tier == "thorough":
+            for cfg in THOROUGH_CONFIGS:
+                ctx.override = cfg
+                ctx.suffix = "@" + cfg
+                saved = list(ctx.explanations), list(ctx.assumptions)
+                fn(ctx)
+                ctx.explanations, ctx.assumptions = saved
+            ctx.override = None
+            ctx.suffix = ""
+            ctx.explain("THOROUGH: the same rules were also evaluated on the lib built with each of: %s "
+                        "(floors and positive controls are counted on the default configuration only)." % ", ".join(THOROUGH_CONFIGS))
     except factsmod.ExtractionError as e:
         ctx.violations.append(dict(rule="extract", key="extract:%s" % e.config, where="",
                                    msg="fact extraction failed for config %s (does /repo still build?)" % e.config,
